@@ -144,7 +144,13 @@ func c06Canonical(c *core.Ctx) {
 			if fnObj, isFn := f.Callee(call).(*types.Func); isFn && fnObj.Pkg() == f.Pkg.Types {
 				if g := c06FuncDeclOf(c, fnObj); g != nil && pred(g, g.Body) {
 					// the callee must be handed the request URL or be a method of the signing context
-					if c06MentionsField(f, call, urlF) || g.Type != nil && fnObj.Type().(*types.Signature).Recv() != nil {
+					handed := fnObj.Type().(*types.Signature).Recv() != nil
+					for _, src := range c06ValueClosure(f, call.Args) {
+						if c06MentionsField(f, src, urlF) {
+							handed = true
+						}
+					}
+					if handed {
 						ok = true
 					}
 				}
@@ -178,6 +184,84 @@ func c06Canonical(c *core.Ctx) {
 	}
 	c.Count("functions_analysed", 1)
 
+	// the path part is the wire (escaped) form of the path: everything that flows into it —
+	// here and in the same-package helper computing it — comes from EscapedPath()/RawPath/
+	// Opaque/RequestURI(), never from the decoded URL.Path and never through an unescape
+	{
+		type src struct {
+			g *flow.Func
+			e ast.Expr
+		}
+		var flows []src
+		seenFn := map[*types.Func]bool{}
+		var collect func(g *flow.Func, roots []ast.Expr, depth int)
+		collect = func(g *flow.Func, roots []ast.Expr, depth int) {
+			for _, e := range c06ValueClosure(g, roots) {
+				flows = append(flows, src{g, e})
+				if depth >= 2 {
+					continue
+				}
+				for _, call := range calls(e, false) {
+					fnObj, ok := g.Callee(call).(*types.Func)
+					if !ok || fnObj.Pkg() != g.Pkg.Types || seenFn[fnObj] {
+						continue
+					}
+					h := c06FuncDeclOf(c, fnObj)
+					if h == nil || !pathOf(h, h.Body) {
+						continue
+					}
+					seenFn[fnObj] = true
+					var rets []ast.Expr
+					ast.Inspect(h.Body, func(x ast.Node) bool {
+						switch t := x.(type) {
+						case *ast.FuncLit:
+							return false
+						case *ast.ReturnStmt:
+							rets = append(rets, t.Results...)
+						}
+						return true
+					})
+					collect(h, rets, depth+1)
+				}
+			}
+		}
+		var pathParts []ast.Expr
+		for _, p := range parts {
+			if viaCallee(c06Resolve(f, defs, p), pathOf) {
+				pathParts = append(pathParts, p)
+			}
+		}
+		if len(pathParts) > 0 {
+			collect(f, pathParts, 0)
+			var badAt ast.Node
+			why := ""
+			wire := 0
+			for _, fl := range flows {
+				switch {
+				case c06MentionsCall(fl.g, fl.e, "net/url.PathUnescape", "net/url.QueryUnescape"):
+					if badAt == nil {
+						badAt, why = fl.e, "the canonical URI is computed from an unescaped (decoded) path"
+					}
+				case c06MentionsField(fl.g, fl.e, uPath):
+					if badAt == nil {
+						badAt, why = fl.e, "the canonical URI is computed from the decoded URL.Path"
+					}
+				case c06MentionsField(fl.g, fl.e, uRawPath, uOpaque) || c06MentionsCall(fl.g, fl.e, "(*net/url.URL).EscapedPath", "(*net/url.URL).RequestURI"):
+					wire++
+				}
+			}
+			wcons := cons + "|canonical path is the wire (escaped) form"
+			switch {
+			case badAt != nil:
+				c.Violate(rule, wcons, pos(c, badAt), why+": decoding is not injective on wire paths (/files/a%2Fb and /files/a/b decode to the same string), so a signature made for one path is accepted on another, and paths that need escaping no longer verify against signatures made by other implementations of the scheme (which sign the escaped path)")
+			case wire == 0:
+				c.Undecide(rule, wcons, pos(c, digestAt), "cannot find the URL component from which the canonical URI is computed")
+			default:
+				c.Discharge(rule, wcons, pos(c, digestAt), sprintf("%d wire-form source(s) (EscapedPath/RawPath/Opaque/RequestURI), no use of the decoded Path, no unescape", wire))
+			}
+		}
+	}
+
 	// the query used on verify comes from the request URL
 	if g := fn(c, c06sig, "SigningContext", "initFromSignedRequest"); g != nil {
 		gcons := fname(c06sig, "SigningContext", "initFromSignedRequest")
@@ -205,6 +289,146 @@ func c06Canonical(c *core.Ctx) {
 		c.Check(n > 0 && n == good, rule, gcons+"|verify takes the query from the request URL", pos(c, at),
 			"SigningContext.Query is assigned req.URL.Query()", "on verify the query fed into the canonical request is not taken from the request URL: the signature does not bind the query the backend will see")
 	}
+}
+
+// c06ValueClosure returns the value expressions that may flow into the roots inside g,
+// flow-insensitively: the roots themselves, every right-hand side assigned (by any statement,
+// any number of times) to a local mentioned in them, the ranged expression of range variables,
+// and the arguments of method calls on / writer-style calls into such a local
+// (buf.WriteString(x), fmt.Fprintf(&buf, ...)). Conditions are not followed (data flow only).
+func c06ValueClosure(g *flow.Func, roots []ast.Expr) []ast.Expr {
+	type feed struct {
+		obj types.Object
+		e   ast.Expr
+	}
+	var feeds []feed
+	local := func(e ast.Expr) types.Object {
+		e = ast.Unparen(e)
+		if u, ok := e.(*ast.UnaryExpr); ok && u.Op == token.AND {
+			e = ast.Unparen(u.X)
+		}
+		for {
+			switch x := e.(type) {
+			case *ast.IndexExpr:
+				e = ast.Unparen(x.X)
+				continue
+			case *ast.SliceExpr:
+				e = ast.Unparen(x.X)
+				continue
+			case *ast.StarExpr:
+				e = ast.Unparen(x.X)
+				continue
+			}
+			break
+		}
+		if v, ok := c06Obj(g, e).(*types.Var); ok && !v.IsField() && v.Pkg() == g.Pkg.Types && v.Parent() != g.Pkg.Types.Scope() {
+			return v
+		}
+		return nil
+	}
+	ast.Inspect(g.Body, func(n ast.Node) bool {
+		switch s := n.(type) {
+		case *ast.AssignStmt:
+			for i, l := range s.Lhs {
+				o := local(l)
+				if o == nil {
+					continue
+				}
+				if len(s.Lhs) == len(s.Rhs) {
+					feeds = append(feeds, feed{o, s.Rhs[i]})
+				} else {
+					for _, r := range s.Rhs {
+						feeds = append(feeds, feed{o, r})
+					}
+				}
+			}
+		case *ast.ValueSpec:
+			for i, nm := range s.Names {
+				o := local(nm)
+				if o == nil {
+					continue
+				}
+				if len(s.Values) == len(s.Names) {
+					feeds = append(feeds, feed{o, s.Values[i]})
+				} else {
+					for _, r := range s.Values {
+						feeds = append(feeds, feed{o, r})
+					}
+				}
+			}
+		case *ast.RangeStmt:
+			for _, kv := range []ast.Expr{s.Key, s.Value} {
+				if kv != nil {
+					if o := local(kv); o != nil {
+						feeds = append(feeds, feed{o, s.X})
+					}
+				}
+			}
+		case *ast.CallExpr:
+			if sel, ok := ast.Unparen(s.Fun).(*ast.SelectorExpr); ok {
+				if o := local(sel.X); o != nil {
+					if _, isMethod := g.Info.Selections[sel]; isMethod {
+						for _, a := range s.Args {
+							feeds = append(feeds, feed{o, a})
+						}
+					}
+				}
+			}
+			if len(s.Args) >= 2 {
+				if o := local(s.Args[0]); o != nil {
+					if t := o.Type(); c06IsWriter(t) {
+						for _, a := range s.Args[1:] {
+							feeds = append(feeds, feed{o, a})
+						}
+					}
+				}
+			}
+		}
+		return true
+	})
+	var out []ast.Expr
+	seen := map[types.Object]bool{}
+	var visit func(e ast.Expr)
+	visit = func(e ast.Expr) {
+		out = append(out, e)
+		ast.Inspect(e, func(x ast.Node) bool {
+			if _, isLit := x.(*ast.FuncLit); isLit {
+				return false
+			}
+			id, ok := x.(*ast.Ident)
+			if !ok {
+				return true
+			}
+			v, ok := g.Info.Uses[id].(*types.Var)
+			if !ok || seen[v] {
+				return true
+			}
+			seen[v] = true
+			for _, fd := range feeds {
+				if fd.obj == v {
+					visit(fd.e)
+				}
+			}
+			return true
+		})
+	}
+	for _, r := range roots {
+		visit(r)
+	}
+	return out
+}
+
+// c06IsWriter reports whether t (or *t) has a Write or WriteString method.
+func c06IsWriter(t types.Type) bool {
+	for _, tt := range []types.Type{t, types.NewPointer(t)} {
+		ms := types.NewMethodSet(tt)
+		for i := 0; i < ms.Len(); i++ {
+			if n := ms.At(i).Obj().Name(); n == "Write" || n == "WriteString" {
+				return true
+			}
+		}
+	}
+	return false
 }
 
 // c06BufferParts finds the writer-typed local (bytes.Buffer, strings.Builder, hash.Hash ...)
